@@ -61,6 +61,8 @@ type EmulOpts struct {
 	NoAttrs bool        // -noattr: no signed attributes, the signature is over the content
 	// openssl cms -econtent_type <oid>: another content type; CMS then uses SignedData version 3
 	EContentType []uint64
+	// octets behind the digest inside the signed messageDigest attribute (the attribute then is not the digest of the content)
+	DigestTail []byte
 }
 
 // Emulate builds a SignedData the way the openssl CLI does (attribute kinds,
@@ -77,6 +79,7 @@ func Emulate(id gen.Identity, content []byte, o EmulOpts) ([]byte, error) {
 		h.Write(content)
 		md = h.Sum(nil)
 	}
+	md = append(append([]byte{}, md...), o.DigestTail...)
 	attrs := []*der.Node{
 		cms.Attr(cms.OIDContentType, der.OID(ctype...)),
 		cms.Attr(cms.OIDSigningTime, UTCTime(o.Time)),
@@ -118,7 +121,7 @@ func SpcContent(digest []byte) ([]byte, error) {
 
 var libKinds = []string{"lib_data_detached", "lib_spc", "lib_other_oid", "lib_bare", "emul_smime_detached", "emul_smime_attached", "emul_cms_attached", "emul_unsorted",
 	// genuine signatures by the signer's key that are outside the profile C04 allows to verify (reference: reject)
-	"emul_noattr_attached", "emul_other_digest"}
+	"emul_noattr_attached", "emul_other_digest", "emul_long_digest_attached"}
 
 // Draw produces a seed: library-made or emulated third-party, with a generated identity.
 func Draw(t *rapid.T, id gen.Identity) Seed {
@@ -169,6 +172,9 @@ func Draw(t *rapid.T, id gen.Identity) Seed {
 		switch kind {
 		case "emul_noattr_attached":
 			o.NoAttrs, o.Attached = true, true
+		case "emul_long_digest_attached":
+			o.Attached = true
+			o.DigestTail = gen.FillBytes(t, rapid.SampledFrom([]int{1, 16, 32}).Draw(t, "tail"))
 		case "emul_other_digest":
 			o.Hash = rapid.SampledFrom([]crypto.Hash{crypto.SHA512, crypto.SHA384, crypto.SHA1}).Draw(t, "md")
 			o.Attached = rapid.Bool().Draw(t, "att2")
